@@ -8,6 +8,16 @@ ALL = ['C%02d' % i for i in range(1, 21)]
 
 # id -> (technique, level text, level note, design ref)
 CHECKS = {
+    'C02': (
+        'catalogue cross product + Hypothesis mutation and random restriction chains against an independent datatype reference',
+        'All built-in atomic/list types of both XSD versions x a 260-entry boundary catalogue (exhaustive), Hypothesis '
+        'one-to-three-character mutants of catalogue entries, Hypothesis restriction chains (two levels; bounds, digits, '
+        'length family, enumeration, pattern, whiteSpace), lists and unions: acceptance through the type object, an element '
+        'and an attribute, the decoded Python value under decimal_type/datetime_types/binary_types, and the '
+        'encode(decode(t)) round trip are compared with a reference written from XSD Part 2. Cells where the '
+        'recommendation is loose are "unspecified" and never assert.',
+        'trusted: vf/oracles/dt.py (lexical/value spaces, facets) with its table self-test; float32 compared with tolerance',
+        'DESIGN.md section 3 C02'),
     'C01': (
         'small-scope enumeration + Hypothesis models against an independent position-automaton membership oracle',
         'For every model of the enumerated scopes (seeded slice in quick, complete in thorough) and every child sequence '
